@@ -1,4 +1,4 @@
-// weightmany.go — weight limit on blocks made of MANY transactions, checked REPEATEDLY.
+// weight_stress.go — weight limit on blocks made of MANY transactions, checked REPEATEDLY.
 //
 // Block.BuildTxListExt hashes the transactions in parallel: every ~4 KB of transactions ("pack") goes to its own
 // goroutine, and each goroutine adds the weight of its transactions to one shared counter. The boundary blocks of
